@@ -86,10 +86,12 @@ def _act(args, default):
             raise UnicodeDecodeError('utf-8', b'\xff', 0, 1, 'fixture')
         if name == 'LazyImport':
             import pelverif_module_that_does_not_exist   # a lazy import failing inside the parser
+        # the message carries format-string metacharacters on purpose
         raise {'ValueError': ValueError, 'KeyError': KeyError, 'AssertionError': AssertionError,
                'ZeroDivisionError': ZeroDivisionError, 'ImportError': ImportError,
                'ModuleNotFoundError': ModuleNotFoundError, 'RuntimeError': RuntimeError,
-               'IndexError': IndexError, 'TypeError': TypeError}[name]('fixture failure in ' + _NAME)
+               'IndexError': IndexError, 'TypeError': TypeError}[name](
+            b.get('msg', "fixture failure {0} {} {'id': 5} %s %d 100% in ") + _NAME)
     return default
 
 
@@ -106,6 +108,13 @@ def parseSRCToJson(refcode, word2, word3, word4, word5, word6, word7, word8, wor
 def getMaintProcDesc(procedure):
     return _act([procedure], json.dumps(['fixture description of ' + procedure]))
 '''
+
+IMPORT_FAIL_BODY = {
+    'RuntimeError': "raise RuntimeError('fixture module fails at import: table {missing} 100%')\n",
+    'SyntaxError': "def parseUDToJson(subtype, version, data)\n    return None\n",
+    'FileNotFoundError': "open('/nonexistent/pelverif/table.json')\n",
+    'ImportError': "import pelverif_module_that_does_not_exist\n",
+}
 
 PACKAGES = ('udparsers', 'srcparsers', 'calloutparsers')
 SHIPPED = {'udparsers': {'m2c00', 'oe500'}, 'srcparsers': {'osrc', 'oe500'}, 'calloutparsers': {'ocallouts'}}
@@ -167,8 +176,13 @@ class PluginFixtures:
                 d = os.path.join(root, pkg, name)
                 os.makedirs(d, exist_ok=True)
                 open(os.path.join(d, '__init__.py'), 'w').close()
+                beh = (self.spec.get(pkg) or {}).get(name)
                 with open(os.path.join(d, name + '.py'), 'w') as f:
-                    f.write(FIXTURE_BODY.replace('%(kind)r', repr(pkg)))
+                    if isinstance(beh, dict) and beh.get('kind') == 'import-fails':
+                        # a module that exists but fails while being imported
+                        f.write(IMPORT_FAIL_BODY[beh.get('how', 'RuntimeError')])
+                    else:
+                        f.write(FIXTURE_BODY.replace('%(kind)r', repr(pkg)))
 
     def __enter__(self):
         _run.mods()
